@@ -134,12 +134,13 @@ def validate_request(request, json_config):
     # Check request version
     version = get_version(request)
     if not version:
-        fault = Fault(
-            -32600,
-            "Request {0} invalid.".format(request),
-            rpcid=rpcid,
-            config=json_config,
-        )
+        try:
+            message = "Request {0} invalid.".format(request)
+        except RuntimeError:
+            # Request too deeply nested to be printed (recursion limit)
+            message = "Request invalid."
+
+        fault = Fault(-32600, message, rpcid=rpcid, config=json_config)
         _logger.warning("No version in request: %s", fault)
         return fault
 
@@ -303,9 +304,10 @@ class SimpleJSONRPCDispatcher(SimpleXMLRPCDispatcher, object):
                 # Compute the string representation of the dictionary/list
                 try:
                     return jsonrpclib.jdumps(response, self.encoding)
-                except (TypeError, ValueError) as ex:
+                except (TypeError, ValueError, RuntimeError) as ex:
                     # The response can't be converted to JSON (e.g. the
-                    # request ID was loaded as a bean): return a fault
+                    # request ID was loaded as a bean, or the result is too
+                    # deeply nested for the encoder): return a fault
                     fault = Fault(
                         -32603,
                         "{0}:{1}".format(type(ex).__name__, ex),
